@@ -10,6 +10,7 @@ states, clause database) is taken when a level is opened; when the level is popp
 the state must be IDENTICAL to the snapshot; otherwise distances must still equal the shortest paths of the currently
 asserted constraints (C10's oracle) and no previously assigned root literal may be lost."""
 import random
+import re
 
 from .. import vlib
 from .. import satlib as S
@@ -63,7 +64,11 @@ def visible(o):
     # clauses as a set of literal sets: propagation legitimately permutes the literals inside a clause (watches)
     cls = sorted(tuple(sorted(S.show_lit(l) for l in c)) for c in S.parse_clauses(cls))
     # layers count is part of the theory dump: it must be restored as well
-    return vals, idl, rdl, cls
+    # linear arithmetic: bounds with their reasons and the number of undo layers (values and tableau legitimately move: pivots)
+    lra = next((p for p in parts if p.startswith("lra ")), "")
+    m = re.search(r" b:(.*?) t:.*? layers:(\d+)", lra)
+    lra = (m.group(1).strip(), m.group(2)) if m else ("", "")
+    return vals, idl, rdl, cls, lra
 
 
 def level_of(o):
@@ -101,7 +106,7 @@ def oracle_case(lines, outs):
             if clean:
                 now = visible(o)
                 if now != snap:
-                    what = [n for n, a, b in zip(("literal values", "idl state", "rdl state", "clause database"), now, snap) if a != b]
+                    what = [n for n, a, b in zip(("literal values", "idl state", "rdl state", "clause database", "linear-arithmetic bounds"), now, snap) if a != b]
                     bad.append((i, f"{ln}: after undoing the level the {', '.join(what)} differ(s) from what it was when the level was opened"))
                     return bad
         if len(stack) > lvl:
@@ -115,7 +120,7 @@ def oracle_case(lines, outs):
 
 def run(tier, seed, replay=None):
     rep = vlib.Report(PROP, tier, seed)
-    rep.assumptions = ["lra_theory bounds follow the same undo scheme; they are covered once the LRA model is part of the network model (C09)",
+    rep.assumptions = ["lra_theory: bounds and their reasons are restored exactly (C09_pop_restores_bounds); values and tableau legitimately differ after pivots and are not part of the snapshot",
                        "object-variable domains are values of guard literals (C14): restored with the SAT assignment",
                        "learnt clauses legitimately add consequences: exact equality with the snapshot is required only for levels during which nothing was learnt; otherwise C10's recomputation oracle applies"]
     vlib.proof_part(rep, PROP, thorough_modules=["OratioProofs.Properties.C08"])
@@ -130,8 +135,9 @@ def run(tier, seed, replay=None):
     else:
         n = 800 if tier == "quick" else 20000
         lines = []
+        from . import lragen
         for c in range(n):
-            lines += gen_case(rng, c)
+            lines += gen_case(rng, c) if c % 3 else lragen.gen_case(rng, c, True if c % 6 == 0 else None)
     import os
     env = dict(os.environ, ASAN_OPTIONS="detect_leaks=0") if tier == "thorough" else None
     lines, impl, model, aborts, maborts = c07.model_first("net", exe, lines, env)
@@ -154,7 +160,7 @@ def run(tier, seed, replay=None):
         if first is not None:
             mism.append((ci, first))
         b = oracle_case(cl, ci_)
-        if not b:
+        if not b and not any(l.startswith("lra.") for l in cl):
             b = c10.oracle_case(cl, ci_, deep=False)
         if b:
             obad[ci] = b
@@ -164,7 +170,7 @@ def run(tier, seed, replay=None):
         rep.violation("model driver crashed", {"kind": "driver", "theorem_or_correspondence": "oratio_model net", "log": str(maborts[:3])}, no_input=True)
     rep.cov.update({
         "evaluations": len(cases), "distinct_nontrivial": len(nontrivial),
-        "rule": "seeded histories over BOTH difference-logic theories in one network: 6-16 constraints (several per pair), then 10-60 calls of assume / pop / next / check nested up to 12 levels, closed by pops back to root; non-trivial = reaches decision level 2 or more",
+        "rule": "two thirds: seeded histories over BOTH difference-logic theories in one network; one third: the linear-arithmetic histories of C09 (bounds asserted, tightened several times per level, set from outside); 6-16 constraints (several per pair), then 10-60 calls of assume / pop / next / check nested up to 12 levels, closed by pops back to root; non-trivial = reaches decision level 2 or more",
         "samples": [cases[0][0][:30]],
         "traces_validated_against_impl": len(cases), "operation_lines": len(lines), "pops_compared_with_snapshot_or_recomputation": pops_checked,
         "max_depth_histogram": {str(k): v for k, v in sorted(maxdepth.items())}, "mismatching_cases": len(mism), "impl_aborts": len(aborts),
